@@ -98,6 +98,7 @@ static Str textWithSpecials(Rng& r, const Features& f, const char* base) {
         for (int i = 0; i < n; i++) { s += bits[r.below(13)]; s += (char)('a' + r.below(26)); }
     }
     if ((f.special_tc || f.special_xml) && r.chance(1, 10)) { size_t n = (size_t)r.range(60, 300); for (size_t i = 0; i < n; i++) s += (char)('a' + (i * 5 + n) % 26); if (r.chance(1, 2)) s += "|'"; }
+    if ((f.special_tc || f.special_xml) && r.chance(1, 8)) s += r.chance(1, 2) ? "\n" : (r.chance(1, 2) ? "\r\n" : "\n\n");      // a text that ends in line breaks
     return s;
 }
 
@@ -263,7 +264,7 @@ void generate(uint64_t seed, const Str& profile, Desc& d, bool exceptions) {
             if (f.procReal && faults.chance(1, 5)) {      // the child dies inside this plugin's pre or post action
                 Op o; o.phase = faults.chance(1, 2) ? PH_PRE : PH_POST; o.d = ++opLine;
                 unsigned w2 = (unsigned)faults.below(3);
-                if (w2 == 0) { o.kind = K_DIE_SIGNAL; static const int sigs[] = { 1, 2, 6, 9, 11, 13, 15, 17 }; o.a = sigs[faults.below(8)]; } else if (w2 == 1) { o.kind = K_DIE_EXIT; o.a = (int64_t)faults.range(1, 255); } else o.kind = K_DIE_ABORT;
+                if (w2 == 0) { o.kind = K_DIE_SIGNAL; static const int sigs[] = { 1, 2, 6, 9, 11, 13, 15, 17 }; o.a = sigs[faults.below(8)]; } else if (w2 == 1) { o.kind = K_DIE_EXIT; o.a = (int64_t)faults.range(1, 255); } else { o.kind = K_DIE_ABORT; if (exceptions && faults.chance(1, 2)) o.b = 1; }      // b = 1: the action throws; nothing catches it outside the test phases, the child ends in std::terminate
                 P.ops.push_back(o);
             }
             // keep ops ordered by phase
